@@ -47,14 +47,17 @@ def round_down_timestamp(timestamp: datetime, timeframe: timedelta) -> datetime:
     Note: This method also calls clean_timestamp, removing microseconds
     """
     timestamp = clean_timestamp(timestamp)
-    return datetime.fromtimestamp(
-        timestamp.timestamp() // timeframe.total_seconds() * timeframe.total_seconds()
-    )
+    return timestamp - (_since_epoch(timestamp) % timeframe)
 
 
 def on_timeframe(timestamp: datetime, timeframe: timedelta) -> bool:
     """Checks if timestamp is on a timeframe value"""
-    return timestamp.timestamp() % timeframe.total_seconds() == 0
+    return _since_epoch(timestamp) % timeframe == timedelta(0)
+
+
+def _since_epoch(timestamp: datetime) -> timedelta:
+    """Wall clock time since the epoch, independent of the machines local timezone"""
+    return timestamp - datetime(1970, 1, 1, tzinfo=timestamp.tzinfo)
 
 
 def clean_timestamp(timestamp: datetime) -> datetime:
